@@ -145,6 +145,32 @@ for radius in (False, True):
     mk()
 
 
+@obligation('C18.random_filter.batched', functions=[f'{GEO}:random_filter'], max_paths=8, first_path_only=True,
+            note='randperm by contract: an arbitrary permutation (here a fixed one; the clause does not depend on which)')
+def random_filter_batched(env):
+    """random_filter on a BATCH of clouds (..., N, D): every returned point of cloud b is one of the input points of cloud b, no point
+    is returned twice, num points per cloud"""
+    geo = env.load(GEO); T = env.T
+    B, N, D, num = 2, 3, 2, 2
+    P = T.stack([cloud(env, f'c{b}_', N, D) for b in range(B)], 0)
+    if env.sym:
+        env.stub(T, 'randperm', lambda n, **k: T.tensor([2, 0, 1][:n] if n == 3 else list(range(n))[::-1]))
+    out = geo.random_filter(P, num)
+    env.holds('shape (..., num, D)', tuple(out.shape) == (B, num, D))
+    if env.sym:
+        from pvc import storch as st
+        row = lambda t: tuple(st._T(t)._a.flat)
+        same = lambda u, v: all(x.same(y) for x, y in zip(row(u), row(v)))
+    else:
+        same = lambda u, v: bool((u == v).all())
+    own = all(any(same(out[b, i], P[b, j]) for j in range(N)) for b in range(B) for i in range(num))
+    env.holds('every returned point is an input point of the SAME cloud', own)
+    picks = [[[j for j in range(N) if same(out[b, i], P[b, j])] for i in range(num)] for b in range(B)]
+    env.holds('no input point is returned twice', own and all(len({p_[0] for p_ in pk}) == num for pk in picks))
+    if env.sym:
+        env.holds('nothing but selection: the entries are the input entries themselves', own)
+
+
 @bounded('C18.brute_force', functions=[f'{GEO}:knn', f'{GEO}:nbr_filter', f'{GEO}:knn_filter', f'{GEO}:voxel_filter', f'{GEO}:random_filter'])
 def brute(rng, tier):
     """real code vs brute force: 1..300 points, dims 1..6 (+ feature channels), norms 1/2/inf, outliers at random positions, permutations"""
@@ -227,6 +253,26 @@ def brute(rng, tier):
             lc = torch.stack([lpts[v].double().mean(0) for _, v in sorted(groups.items())])
             if lo.shape != lc.shape or not torch.allclose(torch.sort(lo.double(), 0).values, torch.sort(lc, 0).values, atol=1e-3 if ldt == torch.float32 else 1e-9):
                 fails.append(dict(clause='voxel_filter_lattice_points', signature=f'{str(ldt).split(".")[-1]}/vox={vsz}', n=n, voxels_returned=int(lo.shape[0]), voxels_expected=len(groups)))
+        # voxel_filter on clouds whose voxel GRID is huge (2^33 cells per axis and more: the grid has far more than 2^64 cells, the cloud a
+        # few dozen points): voxels are identified by their integer index ROWS, whatever the size of the grid
+        if t % 3 == 0:
+            hd = rng.choice([3, 4, 6])
+            E_ = 2 ** 13 if hd == 6 else 2 ** 32            # extent per axis (a power of two: products of extents wrap to 0 in 64-bit keys)
+            base_i = torch.randint(0, E_ - 1001, (max(2, n // 2), hd), generator=g)
+            base_i[0] = 0; base_i[1] = E_ - 1               # two corner points pin the extent of every axis to exactly E_
+            frac = torch.rand(base_i.shape[0], hd, dtype=torch.float64, generator=g) * 0.4 + 0.05
+            twin = base_i.double() + frac + 0.3                                           # a second point in the same voxel of every first one
+            shift = torch.zeros(hd, dtype=torch.float64); shift[rng.randrange(2)] = float(rng.choice([1, 2, 1000]))
+            other = (base_i.double() + frac + shift)[2:]                                       # ... and one in a DIFFERENT voxel that differs in one index only
+            hp = torch.cat([base_i.double() + frac, twin, other], 0)
+            hp = hp[torch.randperm(hp.shape[0], generator=g)]
+            ho = pp.voxel_filter(hp, [1.0] * hd); evals += 1
+            hk = torch.floor(hp - hp.min(0).values).to(torch.int64)
+            hg = {}
+            for i in range(hp.shape[0]): hg.setdefault(tuple(hk[i].tolist()), []).append(i)
+            hc = torch.stack([hp[v].mean(0) for _, v in sorted(hg.items())])
+            if ho.shape != hc.shape or not torch.allclose(torch.sort(ho, 0).values, torch.sort(hc, 0).values, rtol=1e-12, atol=1e-3):
+                fails.append(dict(clause='voxel_filter_huge_grid', signature=f'd={hd}', n=int(hp.shape[0]), voxels_returned=int(ho.shape[0]), voxels_expected=len(hg)))
         # random_filter
         num = rng.randrange(0, n + 1)
         rf = pp.random_filter(pts, num)
